@@ -133,7 +133,7 @@ func verifyFunction(P *Program, key string, opts CheckOpts) *FuncResult {
 			defer func() { <-sem }()
 			asserts := append([]*Term{}, ex.axioms...)
 			asserts = append(asserts, c.Hyps...)
-			coverRes[i] = Solve(ex.env.d, asserts, nil, min(timeout, 10), false, c.Site)
+			coverRes[i] = Solve(ex.env.d, asserts, nil, min(timeout, 4), false, c.Site)
 		}(i, c)
 	}
 	wg.Wait()
